@@ -278,7 +278,7 @@ Section HP.
   Qed.
 
   Lemma insert_chain_one (Ak B : store) mk parent (n : nid) d : gget B n = Some d ->
-    insert_chain Ak B mk parent [n] =
+    insert_chain [] Ak B mk parent [n] =
     match (match nd_parent d with
            | Some bp => match mget mk bp with Some x => inl (Some x) | None => inr EKey end
            | None => inl parent end) with
@@ -289,7 +289,7 @@ Section HP.
                 end
     end.
   Proof.
-    intros E. cbn [insert_chain]. rewrite E.
+    intros E. cbn [insert_chain dget prefer]. rewrite E.
     destruct (nd_parent d) as [bp|]; [destruct (mget mk bp)|]; try reflexivity;
       destruct (add_node Ak _ _ _ _) as [[A1 n'] r]; destruct r; reflexivity.
   Qed.
@@ -305,7 +305,7 @@ Section HP.
       (forall c, gget B c <> None -> In c todo \/ mget mk c <> None) ->
       (forall c n, mget mk c <> None -> In n todo -> c < n) ->
       (forall c v, mget mk c = Some v -> L0 <= v < length (nodes Ak)) -> L0 <= length (nodes Ak) -> MonoM mk ->
-      insert_nodes Ak B mk parent todo = (A1, m1, Ok) ->
+      insert_nodes [] Ak B mk parent todo = (A1, m1, Ok) ->
       free A1 = [] /\ MonoM m1 /\ (forall c v, mget m1 c = Some v -> L0 <= v).
   Proof.
     intros HB. induction todo as [|n rest IH]; intros Ak mk A1 m1 Hincr Hlive Hfree Hall Hbelow Hbound HL0 Hmono Hins.
@@ -369,16 +369,16 @@ Section HP.
   Theorem insert_hugr_Ord (A B : store) (parent : option nid) :
     let p := match parent with Some x => x | None => root A end in
     Inv A -> Ord A -> free A = [] -> Inv B -> Ord B -> gget A p <> None ->
-    exists A' m, insert_hugr A B parent = (A', m, Ok) /\ Inv A' /\ Ord A' /\ free A' = [].
+    exists A' m, insert_hugr [] A B parent = (A', m, Ok) /\ Inv A' /\ Ord A' /\ free A' = [].
   Proof.
     intros p HIA HOA HfA HIB HOB HpA.
     assert (HWF : WF B).
     { exists (fun x => x). intros n d q E P. destruct HOB as [O1 _]. eapply O1; eassumption. }
-    destruct (insert_ok A B parent HIA HIB HWF HpA) as (A' & m & Hins & HI' & HIF). fold p in HIF.
+    destruct (insert_ok [] A B parent HIA HIB HWF HpA) as (A' & m & Hins & HI' & HIF). fold p in HIF.
     exists A', m. split; [exact Hins|]. split; [exact HI'|].
     (* the three phases *)
     unfold insert_hugr in Hins.
-    destruct (insert_nodes A B [] parent (iter_nodes B)) as [[A1 m1] r1] eqn:E1. destruct r1; try discriminate.
+    destruct (insert_nodes [] A B [] parent (iter_nodes B)) as [[A1 m1] r1] eqn:E1. destruct r1; try discriminate.
     destruct (copy_children A1 B m1 (iter_nodes B)) as [A2 r2] eqn:E2. destruct r2; try discriminate.
     destruct (copy_links A2 m1 (q_links B)) as [A3 r3] eqn:E3. injection Hins as <- <- ->.
     destruct HIB as (HLB & HFB & HCB & HTB). destruct (tree_facts B HTB) as (_ & HparliveB & _).
@@ -654,7 +654,7 @@ Section Ports.
       pose proof (brun_PE src (init o m) HI0 (init_PE o m) Hsrc HC) as HPB.
       assert (HWF : WF (brun (init o m) src)).
       { exists (fun x => x). intros x d q E P. destruct HOB as [O1 _]. eapply O1; eassumption. }
-      destruct (insert_ok h (brun (init o m) src) p HI HIB HWF) as (A' & mp & Hins & HI' & HIF).
+      destruct (insert_ok [] h (brun (init o m) src) p HI HIB HWF) as (A' & mp & Hins & HI' & HIF).
       { unfold s_live, dfl in Hp. destruct (gget h _); congruence. }
       rewrite Hins. cbn [fst]. split; [exact HI'|]. exact (insert_PE h _ _ mp A' HP HPB HIF).
   Qed.
@@ -695,13 +695,13 @@ Section Syntactic.
   Notation store := (Graph.hugr Op Meta).
 
   Lemma insert_chain_free (B : store) parent : forall chain (Ak : store) mk, free Ak = [] ->
-    free (fst (fst (insert_chain Ak B mk parent chain))) = [].
+    free (fst (fst (insert_chain [] Ak B mk parent chain))) = [].
   Proof.
-    induction chain as [|c rest IH]; intros Ak mk Hf; cbn [insert_chain]; [exact Hf|].
+    induction chain as [|c rest IH]; intros Ak mk Hf; cbn [insert_chain dget prefer]; [exact Hf|].
     destruct (Graph.get_node B c) as [d|]; [|exact Hf].
     assert (Hadd : forall pp, free (fst (fst (
               match add_node Ak (nd_op d) pp (Some (nd_outs d)) (nd_meta d) with
-              | (A1, n, Ok) => insert_chain A1 B (dset Nat.eqb mk c n) parent rest
+              | (A1, n, Ok) => insert_chain [] A1 B (dset Nat.eqb mk c n) parent rest
               | (A1, _, e) => (A1, mk, e)
               end))) = []).
     { intros pp. unfold add_node.
@@ -711,17 +711,17 @@ Section Syntactic.
     destruct (nd_parent d) as [bp|]; [destruct (dget Nat.eqb mk bp)|]; cbv zeta; try apply Hadd. exact Hf.
   Qed.
   Lemma insert_nodes_free (B : store) parent : forall todo (Ak : store) mk, free Ak = [] ->
-    free (fst (fst (insert_nodes Ak B mk parent todo))) = [].
+    free (fst (fst (insert_nodes [] Ak B mk parent todo))) = [].
   Proof.
     induction todo as [|n rest IH]; intros Ak mk Hf; cbn [insert_nodes]; [exact Hf|].
     destruct (ancestors_todo _ B mk (Some n) []) as [chain|e]; [|exact Hf].
     pose proof (insert_chain_free B parent chain Ak mk Hf) as H.
-    destruct (insert_chain Ak B mk parent chain) as [[A1 m1] r]. cbn [fst] in H. destruct r; try exact H. now apply IH.
+    destruct (insert_chain [] Ak B mk parent chain) as [[A1 m1] r]. cbn [fst] in H. destruct r; try exact H. now apply IH.
   Qed.
-  Lemma insert_hugr_free (A B : store) parent : free A = [] -> free (fst (fst (insert_hugr A B parent))) = [].
+  Lemma insert_hugr_free (A B : store) parent : free A = [] -> free (fst (fst (insert_hugr [] A B parent))) = [].
   Proof.
     intros Hf. unfold insert_hugr. pose proof (insert_nodes_free B parent (iter_nodes B) A [] Hf) as H1.
-    destruct (insert_nodes A B [] parent (iter_nodes B)) as [[A1 m] r1]. cbn [fst] in H1. destruct r1; try exact H1.
+    destruct (insert_nodes [] A B [] parent (iter_nodes B)) as [[A1 m] r1]. cbn [fst] in H1. destruct r1; try exact H1.
     pose proof (copy_children_free B m (iter_nodes B) A1) as H2.
     destruct (copy_children A1 B m (iter_nodes B)) as [A2 r2]. cbn [fst] in H2. destruct r2; cbn [fst]; try congruence.
     pose proof (copy_links_free m (q_links B) A2) as H3.
@@ -740,7 +740,7 @@ Section Syntactic.
     - unfold delete_link. destruct (lm_delete_link (links h) s t). exact Hf.
     - unfold set_meta. destruct (Graph.get_node h n); exact Hf.
     - pose proof (insert_hugr_free h (brun (init o m) src) p Hf) as H.
-      destruct (insert_hugr h _ p) as [[h' mp] r]. exact H.
+      destruct (insert_hugr [] h _ p) as [[h' mp] r]. exact H.
   Qed.
 
   Lemma hist_ok_no_adds cs : forall h : store, hist_in_guard h cs = true ->
